@@ -466,10 +466,14 @@ SendPingOn(G) ==                                                    \* UserPings
 SendPing ==
     /\ Alive /\ pp.user = "Empty" /\ tk.pt = "none"
     /\ Commit(SendPingOn(Cur))
-\* what the simulator's user-ping operation does: take the handle if nobody has it yet (no poll), then send_ping
+\* what the simulator's user-ping operation does: take the handle if nobody has it yet - Connection::ping_pong() is a method of
+\* the connection, whose owner polls it afterwards: whichever of that poll and send_ping comes first, the PING is seen - then send_ping
 UserPing ==
     /\ CanCall /\ pp.user \in {"NoHandle", "Empty"} /\ tk.pt = "none"
-    /\ Commit(SendPingOn([Cur EXCEPT !.pp.user = "Empty"]))
+    /\ IF pp.user = "NoHandle"
+       THEN LET G1 == Api([Cur EXCEPT !.pp.user = "PendingPing", !.tk.pt = "waiting"], "send_ping", "ok", 0, FALSE)
+            IN Commit([G1 EXCEPT !.tk.pw = FALSE, !.tk.woken = TRUE])
+       ELSE Commit(SendPingOn(Cur))
 PollPong ==                                                         \* UserPings::poll_pong by the task the pong waker woke
     /\ tk.pt = "waiting" /\ pp.user \in {"ReceivedPong", "Closed"}
     /\ LET G == [Cur EXCEPT !.tk.pt = "none"] IN
